@@ -104,3 +104,15 @@ package signaller
 //@ ensures forall j :: 0 <= j && j < len(result) ==> has(s.signalIDToFeed, result[j]) && !has(PendingIDs, result[j])
 //@ loop 0: invariant forall j :: 0 <= j && j < len(signalIDs) ==> has(s.signalIDToFeed, signalIDs[j])
 //@ loop 0: invariant forall j :: 0 <= j && j < len(filtered) ==> has(s.signalIDToFeed, filtered[j]) && !has(PendingIDs, filtered[j])
+
+// C20 "re-submits every current-feed signal ... (missing signals)": a signal the price service has no price for, or whose
+// price cannot be used this round, is skipped ALONE - the signals after it in the list are still considered
+// (the bounds shouldUpdatePrice needs - shipped send-slot configuration, chain-validated intervals and cooldown, block
+// timestamps - are those of the refreshed chain view; they are required here and carried through the loop)
+//@ spec viewOK(s Signaller) Bool = s.distributionOffsetPercentage > 0 && s.distributionStartPercentage + s.distributionOffsetPercentage <= 100 && 0 <= s.params.CooldownTime && s.params.CooldownTime <= T61
+//@      && (forall k Str :: has(s.signalIDToFeed, k) ==> 0 < s.signalIDToFeed[k].Interval && s.signalIDToFeed[k].Interval <= T61 / 100)
+//@      && (forall k Str :: has(s.signalIDToValidatorPrice, k) ==> 0 <= s.signalIDToValidatorPrice[k].Timestamp && s.signalIDToValidatorPrice[k].Timestamp <= T61)
+//@ func (s *Signaller) filterAndPrepareSignalPrices
+//@ requires viewOK(s)
+//@ loop 0: invariant viewOK(s)
+//@ loop 0: exhaustive
